@@ -90,3 +90,17 @@ CHECKS["C13"] = {
          "match semantics (differentially tested each run); writer errors, OS pipe chunking and os/exec goroutines are outside the model.",
  "technique": "machine-checked proof in Coq + model/implementation correspondence check (exhaustive chunkings)",
 }
+
+CHECKS["C20"] = {
+ "text": "the operation table (verb, path template, query, retry policy, headers) of all 33 request-issuing client methods is REGENERATED "
+         "from client.go/retry.go by srcfacts on every run; Coq theorems over that table: cleanPath and the URL round trip are the "
+         "identity on well-formed targets, request targets are injective in the valid names, every request carries the token and the "
+         "tag, a non-GET operation is sent exactly once under ANY sequence of transient failures, a GET at most MaxRetry tries, retries "
+         "continue until the first success; the diagnostics clause is refuted (known finding) and proved outside its class; the real "
+         "client is driven against fault-injecting httptest servers (5xx / connection reset prefixes) and compared request by request",
+ "note": "Trusted: Coq kernel, srcfacts (a method it no longer recognises breaks C20_src_interface_covered), correspondence harness, "
+         "extraction. net/http, pulumi's httputil timing and real network faults are exercised, not modelled (the transparent replay "
+         "of GETs on reused connections is modelled). Names outside the valid-name hypothesis ('..', '?', '#') mis-address requests: "
+         "reported as an observation.",
+ "technique": "model regenerated from source + machine-checked proof in Coq + correspondence check",
+}
